@@ -14,7 +14,7 @@ CONSTANTS
   Deltas <- D3
   OtherKinds <- NoOther
   Strict = FALSE
-  ExK = 16
+  ExK = 8
   D = 1
 INIT Init
 NEXT NextR
